@@ -49,6 +49,10 @@ var keyPool = []poolKey{
 	{cty.ListVal([]cty.Value{cty.NumberIntVal(2)}), "L[2]", true},
 	{cty.ObjectVal(map[string]cty.Value{"a": cty.StringVal("x")}), "O{a=x}", true},
 	{cty.EmptyObjectVal, "O{}", true},
+	// "nulls of any types are equal to one another" (Value.Equals): one key. Path.Equals is exact
+	// (RawEquals) and tells the types apart, so these are not used for the Path.Equals clause.
+	{cty.NullVal(cty.Number), "null", false},
+	{cty.NullVal(cty.String), "null", false},
 }
 
 // attribute names; "#" and "ab" collide with other paths under pathSetRules.Hash
@@ -60,7 +64,18 @@ type mpath struct {
 	exact bool
 }
 
-func (m mpath) key() string { return strings.Join(m.canon, "/") + "/" }
+// key is the canonical text of the path: every step followed by "/" (the empty
+// path is ""), so that "is a prefix of" is the string prefix relation.
+func (m mpath) key() string { return canonKey(m.canon) }
+
+func canonKey(parts []string) string {
+	var sb strings.Builder
+	for _, s := range parts {
+		sb.WriteString(s)
+		sb.WriteString("/")
+	}
+	return sb.String()
+}
 
 func genPath(r *core.Rand) mpath {
 	n := r.Weighted([]int{1, 4, 4, 3, 2})
@@ -117,6 +132,9 @@ func (s modelSet) clone() modelSet {
 func (s modelSet) text() string {
 	ks := make([]string, 0, len(s))
 	for k := range s {
+		if k == "" {
+			k = "(empty path)"
+		}
 		ks = append(ks, k)
 	}
 	sort.Strings(ks)
@@ -159,7 +177,7 @@ func canonOfLib(p cty.Path) (string, bool) {
 			return "", false
 		}
 	}
-	return strings.Join(parts, "/") + "/", true
+	return canonKey(parts), true
 }
 
 type psOp struct {
